@@ -68,8 +68,10 @@ def generate(rng, index, tier):
         elif r < 0.4:
             ev = {'do': 'status', 'user': u, 'status': rng.choice(('online', 'away', 'offline')),
                   'privileged': rng.random() < 0.2}
-        elif r < 0.55:
+        elif r < 0.47:
             ev = {'do': 'abort', 'user': u}
+        elif r < 0.55:
+            ev = {'do': rng.choice(('pause', 'requeue', 'request')), 'user': u, 'file': rng.randint(0, 2)}
         elif r < 0.7:
             ev = {'do': 'reset', 'user': u, 'after': rng.choice([0, 1, 2000, 9000])}
         elif r < 0.8:
@@ -113,6 +115,19 @@ def corpus(tier):
     # same user, three files, two slots: never two at once
     out.append(plan([{'name': 'u0', 'status': 'online', 'friend': False, 'privileged': False, 'files': 3}], 2,
                     [{'do': 'request', 'user': 'u0', 'file': f, 'gap': 0.0} for f in range(3)]))
+    # an older upload leaves its slot (paused / aborted / completed), the same user's next file takes over, then the
+    # older one is queued again (by the user, or by the peer asking again) while the newer one is still active
+    two = [{'name': 'u0', 'status': 'online', 'friend': False, 'privileged': False, 'files': 2},
+           {'name': 'u1', 'status': 'online', 'friend': False, 'privileged': False, 'files': 1}]
+    for leave in ('pause', 'abort', None):
+        for back in ('requeue', 'request'):
+            for gap in (0.0, 0.3):
+                evs = [{'do': 'request', 'user': 'u0', 'file': 0, 'gap': 0.0}, {'do': 'request', 'user': 'u0', 'file': 1, 'gap': 0.0}]
+                if leave:
+                    evs.append({'do': leave, 'user': 'u0', 'gap': 0.3})
+                evs.append({'do': back, 'user': 'u0', 'file': 0, 'gap': 0.6 if leave else 3.0})
+                evs.append({'do': 'request', 'user': 'u1', 'file': 0, 'gap': gap})
+                out.append(plan(two, 2, evs, size=60000 if leave else 20000, speed_kbps=20))
     # offline user never started; comes online later
     out.append(plan([{'name': 'u0', 'status': 'offline', 'friend': False, 'privileged': False, 'files': 1},
                      {'name': 'u1', 'status': 'online', 'friend': False, 'privileged': False, 'files': 1}], 2,
@@ -392,6 +407,14 @@ def _run(world: World, plan):
                         fired['user_abort'] += 1
                         world.call(alice, 'abort', tm.abort, t)
                         break
+            elif do in ('pause', 'requeue') and ev['user'] in users:
+                # user pauses an upload of that peer / puts its oldest stopped upload back in the queue
+                states = ('QUEUED', 'INITIALIZING', 'UPLOADING') if do == 'pause' else ('PAUSED', 'ABORTED', 'FAILED', 'COMPLETE')
+                for t in list(uploads):
+                    if t.username == ev['user'] and t in tm.transfers and t.state.VALUE.name in states:
+                        fired['user_' + do] += 1
+                        world.call(alice, do, tm.pause if do == 'pause' else tm.queue, t)
+                        break
             elif do == 'reset' and ev['user'] in xpeers:
                 xp = xpeers[ev['user']]
                 for dl in xp.downloads.values():
@@ -437,7 +460,7 @@ def _run(world: World, plan):
             world.probe('start_with_others_waiting')
             if any(w != cls for w in waiting):
                 world.probe('start_with_other_rank_class_waiting')
-    faults = sum(v for k, v in fired.items() if k in ('limit_change', 'status_change', 'user_abort', 'reset_mid_file',
+    faults = sum(v for k, v in fired.items() if k in ('limit_change', 'status_change', 'user_abort', 'user_pause', 'user_requeue', 'reset_mid_file',
                                                        'peer_refuse', 'peer_silent', 'settings_change'))
     nontrivial = max_over > 0 or faults > 0
     sig = [sorted((u['status'], u['friend'], u['privileged'], u['files']) for u in plan['users']),
